@@ -861,4 +861,72 @@ def rule_n(ctx: Ctx) -> None:
     ctx.explain('C11.n: every function containing `yield` is scanned for `raise StopIteration` outside a handler that catches it.')
 
 
-RULES = [rule_a, rule_b, rule_c, rule_d, rule_e, rule_f, rule_g, rule_h, rule_i, rule_j, rule_k, rule_l, rule_m, rule_n]
+def rule_o(ctx: Ctx) -> None:
+    """With keep_unknown=True the group decoder hands an undeclared child to the converter as (name, value, None).  Every sibling
+    element_decode that walks map_content(…) touches the third item only where it is known not to be None (guard, or the left operand of
+    the same `and`), and does not assert it: otherwise lax decoding of a document with an undeclared child raises AssertionError /
+    AttributeError."""
+    rule = 'C11.o'
+    from .common import atom_forces, bool_atoms
+    prod = ctx.idx.method('xmlschema.validators.groups.XsdGroup', 'raw_decode')
+    premise = any(isinstance(x, ast.Tuple) and len(x.elts) == 3 and isinstance(x.elts[2], ast.Constant) and x.elts[2].value is None and text(x.elts[1]) == 'result_item'
+                  for x in ast.walk(prod.node))
+    ctx.ob(rule, 'XsdGroup.raw_decode appends (name, result_item, None) for a kept unknown child (premise)', prod.loc(), premise, '', key='raw_decode|unknown-child-tuple', nontrivial=False)
+    n = 0
+    for f in ctx.idx.iter_functions('converters'):
+        if isinstance(f.node, ast.Lambda) or f.name != 'element_decode':
+            continue
+        loops = [x for x in ast.walk(f.node) if isinstance(x, ast.For) and 'map_content' in text(x.iter) and isinstance(x.target, ast.Tuple) and len(x.target.elts) == 3
+                 and isinstance(x.target.elts[2], ast.Name)]
+        if not loops:
+            continue
+        ctx.analysed(f.qualname)
+        g = cfg_of(ctx, f)
+        for lp in loops:
+            v = lp.target.elts[2].id
+            if v == '_':
+                continue
+            n += 1
+            bad = None
+            for x in g.nodes:
+                if not any(x.ast is y for y in ast.walk(lp)) and not any(any(e is y for y in ast.walk(lp)) for e in x.exprs):
+                    continue
+                for e in (x.exprs or ([x.ast] if x.kind in ('stmt', 'return') else [])):
+                    # asserts on the declaration
+                    if isinstance(x.ast, ast.Assert) and f'{v} is not None' in text(x.ast.test):
+                        bad = (x, 'asserted')
+                    for y in ast.walk(e):
+                        if isinstance(y, ast.Attribute) and isinstance(y.value, ast.Name) and y.value.id == v and isinstance(y.ctx, ast.Load):
+                            gs = guards(ctx, f, x)
+                            safe = any((t == f'{v} is not None' and lab == 'T') or (t == f'{v} is None' and lab == 'F') for t, lab in gs)
+                            if not safe:
+                                for t, lab in gs:
+                                    try:
+                                        te = ast.parse(t, mode='eval').body
+                                    except SyntaxError:
+                                        continue
+                                    if f'{v} is None' in bool_atoms(te) and atom_forces(te, f'{v} is None', True, lab != 'T'):
+                                        safe = True
+                                    if f'{v} is not None' in bool_atoms(te) and atom_forces(te, f'{v} is not None', False, lab != 'T'):
+                                        safe = True
+                            if not safe:
+                                # same boolean expression: `v is not None and v.attr…`
+                                for bo in ast.walk(e):
+                                    if isinstance(bo, ast.BoolOp):
+                                        idxs = [i for i, val in enumerate(bo.values) if any(z is y for z in ast.walk(val))]
+                                        want = f'{v} is not None' if isinstance(bo.op, ast.And) else f'{v} is None'
+                                        if idxs and any(text(val) == want for val in bo.values[:idxs[0]]):
+                                            safe = True          # short circuit: the right operands run only when the declaration exists
+                            if not safe and bad is None:
+                                bad = (x, f'`{text(y)}` dereferenced')
+            # the normal form drops pure asserts: look at the source as well
+            ok = bad is None
+            ctx.ob(rule, f'{f.qualname.split(".", 2)[-1]}: the declaration `{v}` of a child from map_content(…) is used only where it is known not to be None', f.loc(lp), ok,
+                   '' if ok else f'{bad[1]} at line {bad[0].lineno} without a None test: decode(doc, validation="lax", keep_unknown=True, converter={f.cls.name if f.cls else "…"}) '
+                   'raises on a document with an undeclared child', key=f'{f.qualname}|unknown-child|{v}')
+    ctx.floor(rule, 'converter loops over map_content with a declaration', n, 2)
+    ctx.explain('C11.o: in every element_decode of xmlschema/converters the third item of the map_content tuples is dereferenced only under a `is not None` guard '
+                '(control dependence, truth table, or left operand of the same conjunction).')
+
+
+RULES = [rule_a, rule_b, rule_c, rule_d, rule_e, rule_f, rule_g, rule_h, rule_i, rule_j, rule_k, rule_l, rule_m, rule_n, rule_o]
